@@ -56,7 +56,7 @@ func init() {
 	core.Register(&core.Prop{
 		ID:    "C02",
 		Level: "exploration",
-		Rule: "seeded histories of 5-8 real install/upgrade/rollback/uninstall ops (22% deliberately failing: never-ready, hook failure, 500 on the n-th mutation; force/atomic/cleanup-on-fail/max-history on subsets) over 4-5 chart versions drawn from 15 resource slots (typed kinds, two custom kinds, one cluster-scoped; Widget and HorizontalPodAutoscaler move between two served API versions of their group from chart version to chart version) with resource-policy keep/delete/none toggling per version, 0-3 out-of-band edits before each op (field change, field removal, foreign fields, object deletion, keep added/removed), 3-6 bystanders and a second release in the namespace, on memory/secrets/configmaps storage. " +
+		Rule: "seeded histories of 5-8 real install/upgrade/rollback/uninstall ops (22% deliberately failing: never-ready, hook failure, 500 on the n-th mutation; force/atomic/cleanup-on-fail/max-history on subsets) over 4-5 chart versions drawn from 15 resource slots (typed kinds, two custom kinds, one cluster-scoped; Widget and HorizontalPodAutoscaler move between two served API versions of their group from chart version to chart version; about a third of the namespaced slots get a twin of the same kind and name in a second namespace with its own resource policy) with resource-policy keep/delete/none toggling per version, 0-3 out-of-band edits before each op (field change, field removal, foreign fields, object deletion, keep added/removed), 3-6 bystanders and a second release in the namespace, on memory/secrets/configmaps storage. " +
 			"distinct_nontrivial counts distinct (op kind+flags, #created, #patched/replaced, #deleted, #kept, drift kinds applied before the op, last-revision status) shapes among judged successful ops.",
 		Assumptions: []string{
 			"the simulated API server applies create/get/patch(strategic, JSON-merge)/replace/delete like a real API server and stores objects as sent (no defaulting, no admission, no controllers, synchronous deletion)",
@@ -108,6 +108,7 @@ func post(a *core.Agg) string {
 	need("bystander_objects_compared", 300)
 	need("uninstalls_judged", 5)
 	need("resources_moved_to_another_api_version", 20)
+	need("uninstall_same_name_pairs_with_one_keep", 10)
 	need("uninstall_keep_resources_checked", 1)
 	if len(msgs) > 0 {
 		return "monitors observed too little: " + strings.Join(msgs, "; ")
@@ -459,6 +460,18 @@ func judgeUninstall(res *core.Result, o *gen.StepObs, detail func() string, verb
 	}
 	docs, _ := ref.ParseManifest(top.Manifest, gen.DriftNS)
 	nKeep, nGone := 0, 0
+	// pairs of the same kind and name in different namespaces of which exactly one is kept
+	byName := map[string][]ref.Doc{}
+	for _, d := range docs {
+		if d.Key != "" {
+			byName[d.Kind+"/"+d.Name] = append(byName[d.Kind+"/"+d.Name], d)
+		}
+	}
+	for _, g := range byName {
+		if len(g) == 2 && g[0].NS != g[1].NS && (g[0].Policy == "keep") != (g[1].Policy == "keep") {
+			res.Stat("uninstall_same_name_pairs_with_one_keep", 1)
+		}
+	}
 	for _, d := range docs {
 		if d.Key == "" {
 			continue
